@@ -300,3 +300,10 @@ def starts_alpha(key):
     if key[0].isalpha():
         return 1
     return 0
+
+
+def ignorable(key):
+    flag = key and not key[0].isalpha()
+    if flag:
+        return 1
+    return 0
